@@ -71,11 +71,11 @@ void h_ren_cwid(void)
 	__CPROVER_assume(0 <= g_ucwid && g_ucwid <= 2 && 0 <= pos && pos <= 0x10000000);
 	int w = ren_cwid(s, pos);
 	if (s[0] == '\t') {
-		__CPROVER_assert(1 <= w && w <= 8 && ((pos + w) & 7) == 0, "ren_cwid: a tab reaches the next multiple of 8 (1..8 cells)");
+		H_ASSERT(1 <= w && w <= 8 && ((pos + w) & 7) == 0, "ren_cwid: a tab reaches the next multiple of 8 (1..8 cells)");
 	} else if (g_ph) {
-		__CPROVER_assert(w == g_phwid, "ren_cwid: a placeholder has its declared width");
+		H_ASSERT(w == g_phwid, "ren_cwid: a placeholder has its declared width");
 	} else {
-		__CPROVER_assert(w == g_ucwid, "ren_cwid: every other character has the width of its class (0, 1 or 2)");
+		H_ASSERT(w == g_ucwid, "ren_cwid: every other character has the width of its class (0, 1 or 2)");
 	}
 #ifdef CANARY
 	__CPROVER_assert(0, "canary");
@@ -171,9 +171,9 @@ void h_ren_noeol(void)
 	NE.calls = 0;
 	int r = ren_noeol(has ? line : (char *) 0, o);
 	int n = g_slen;
-	__CPROVER_assert(0 <= r && r <= o && (n == 0 ? r == 0 : r <= n - 1), "ren_noeol: the offset is clamped into the line, never moved right");
-	__CPROVER_assert(n >= 2 ==> r <= n - 2, "ren_noeol: never on the line terminator of a non-empty line");
-	__CPROVER_assert(r == (o <= n - 2 ? o : n >= 2 ? n - 2 : 0), "ren_noeol: an offset on a character other than the terminator is kept, anything else goes to the last such character");
+	H_ASSERT(0 <= r && r <= o && (n == 0 ? r == 0 : r <= n - 1), "ren_noeol: the offset is clamped into the line, never moved right");
+	H_ASSERT(n >= 2 ==> r <= n - 2, "ren_noeol: never on the line terminator of a non-empty line");
+	H_ASSERT(r == (o <= n - 2 ? o : n >= 2 ? n - 2 : 0), "ren_noeol: an offset on a character other than the terminator is kept, anything else goes to the last such character");
 #ifdef CANARY
 	__CPROVER_assert(0, "canary");
 #endif
